@@ -32,6 +32,9 @@ type c19Params struct {
 	// Populated: the initial state holds every key of both DMaps (the interesting interference
 	// needs both copies to exist; from there three events reach expire ; tick ; evict)
 	Populated bool
+	// Handover: after the keys were stored one more member joins and the new routing table is
+	// pushed, but no fragment has moved yet: partitions have a previous owner that holds the data
+	Handover bool
 }
 
 type c19Ent struct {
@@ -92,6 +95,19 @@ func c19New(p *c19Params) *c19Sys {
 			}
 		}
 	}
+	if p.Handover {
+		idx := 0
+		for _, m := range s.Cl.Members {
+			if m.Idx >= idx {
+				idx = m.Idx + 1
+			}
+		}
+		if _, err := s.Cl.StartMember(idx); err != nil {
+			panic(err)
+		}
+		s.Cl.DeliverAll()
+		s.Cl.Push()
+	}
 	if p.Entry == "CC" {
 		cl, err := s.Cl.ClusterClient(s.Cl.Live()[0])
 		if err != nil {
@@ -141,6 +157,8 @@ func (s *c19Sys) describe(e clustermc.Ev) string {
 		return fmt.Sprintf("Tick(%dms)", e.B)
 	case "evict":
 		return "evict"
+	case "balance":
+		return "balancer-pass(every member)"
 	case "destroy", "scan":
 		return fmt.Sprintf("%s(%q)", e.K, d)
 	}
@@ -156,6 +174,12 @@ func (s *c19Sys) Apply(e clustermc.Ev) []clustermc.Fail {
 	}
 	if e.K == "tick" {
 		sched.AdvanceNS(int64(e.B) * 1e6)
+		return nil
+	}
+	if e.K == "balance" {
+		for _, m := range s.Cl.Live() {
+			s.Cl.Balance(m)
+		}
 		return nil
 	}
 	if e.K == "evict" {
@@ -426,6 +450,8 @@ func c19Specs(tier string) []*clustermc.Spec {
 	same, diff := c19KeyPair([]string{"data", "ta"})
 	cfs = append(cfs, cf{102, 2, "EO", grid[0], keysFor["ab"]}, cf{102, 2, "CC", grid[1], keysFor["x"]},
 		cf{102, 2, "EN", []string{"data", "ta"}, [][]string{{same, diff}, {same, diff}}})
+	// populated, then a join whose hand-over has not started (n >= 200 marks the configuration)
+	cfs = append(cfs, cf{201, 1, "EO", grid[0], keysFor["ab"]}, cf{202, 2, "EO", grid[0], keysFor["ab"]})
 	var out []*clustermc.Spec
 	for _, c := range cfs {
 		depth := depth
@@ -436,11 +462,15 @@ func c19Specs(tier string) []*clustermc.Spec {
 		if after {
 			c.n = -c.n
 		}
+		handover := c.n >= 200
+		if handover {
+			c.n -= 100
+		}
 		populated := c.n >= 100
 		if populated {
 			c.n -= 100
 		}
-		p := &c19Params{Name: fmt.Sprintf("dmaps=%q N=%d R=%d entry=%s", c.names, c.n, c.r, c.entry), Entry: c.entry, DMaps: c.names, Keys: c.keys, Depth: depth, AfterLeave: after, Populated: populated,
+		p := &c19Params{Name: fmt.Sprintf("dmaps=%q N=%d R=%d entry=%s", c.names, c.n, c.r, c.entry), Entry: c.entry, DMaps: c.names, Keys: c.keys, Depth: depth, AfterLeave: after, Populated: populated, Handover: handover,
 			Opts: simcluster.Opts{N: c.n, Replicas: c.r, WriteQ: 1, ReadQ: 1, Partitions: 3}}
 		if after {
 			p.Name += " after-a-leave"
@@ -448,10 +478,18 @@ func c19Specs(tier string) []*clustermc.Spec {
 		if populated {
 			p.Name += " populated"
 		}
+		if handover {
+			p.Name += " then-a-join-not-yet-balanced"
+		}
 		var alpha []clustermc.Ev
 		for d := range c.names {
 			for k := range c.keys[d] {
 				ops := []string{"put", "del", "incr", "lock", "expire"}
+				if handover {
+					// during a hand-over the statements fix the meaning of reads, plain writes and
+					// deletes (C03) and of Destroy (this property) only
+					ops = []string{"put", "del"}
+				}
 				if after {
 					// after the loss of a member the statements fix the meaning of plain Put / Get /
 					// Delete (C02) and of Destroy (this property); conditional and read-modify-write
@@ -468,6 +506,9 @@ func c19Specs(tier string) []*clustermc.Spec {
 			}
 		}
 		alpha = append(alpha, clustermc.Ev{K: "tick", B: 3000}, clustermc.Ev{K: "evict"})
+		if handover {
+			alpha = append(alpha, clustermc.Ev{K: "balance"})
+		}
 		proto := &c19Sys{P: p}
 		out = append(out, &clustermc.Spec{
 			Name: p.Name, Depth: depth,
